@@ -12,9 +12,11 @@ import (
 	"io"
 	"net"
 	"sort"
+	"os"
 	"strings"
 	"sync"
 	"testing"
+	"testing/cryptotest"
 	"testing/synctest"
 	"time"
 
@@ -220,6 +222,10 @@ type Options struct {
 func Run(t *testing.T, o Options, body func(w *World)) *core.Result {
 	res := core.NewResult()
 	var w *World
+	// crypto/tls, crypto/ecdsa ... draw from the runtime's own source, whatever rand.Reader is
+	// (since Go 1.26): a signature that is a byte longer moves every later segment boundary of a
+	// TLS connection. testing/cryptotest seeds that source for the process; re-seeded per run.
+	cryptotest.SetGlobalRandom(t, o.Seed^0x5bd1e9955bd1e995)
 	oldRand := rand.Reader
 	pv, stack, dl := core.InBubble(t, func() {
 		if o.ClockOffset > 0 {
@@ -243,11 +249,18 @@ func Run(t *testing.T, o Options, body func(w *World)) *core.Result {
 		}
 		w = &World{T: t, Seed: o.Seed, Log: log, S: s, Res: res, drivers: map[string]bool{}, rootGID: core.GoID()}
 		w.Net = simnet.New(cfg, s, log)
+		if os.Getenv("VSIM_NETTRACE") != "" {
+			// debugging aid: every socket write in the canonical log
+			w.Net.AddTap(func(ev simnet.TapEvent) {
+				log.Add("net:"+ev.Node+":"+ev.Sock, ev.Kind, "%s->%s len=%d", ev.From, ev.To, len(ev.Data))
+			})
+		}
 		for site, spec := range o.Yields {
 			s.EnableYield(site, spec)
 		}
 		verifhook.Yield = s.Yield
 		verifhook.SimLocks = o.SimLocks
+		verifhook.MapSeed = core.Mix(o.Seed ^ 0x6d61706f72646572) // iteration order of the library's maps (DESIGN 8.6)
 		defer func() { verifhook.Yield = nil; verifhook.SimLocks = false }()
 
 		body(w)
